@@ -58,18 +58,18 @@ TEXT = {
     },
     "C10": {
         "technique": "property-based testing (rapid) with exhaustive per-packet mutation sweeps: every single-bit flip and field-level edit of encoder-produced NTS requests, responses and server cookies, judged by region (authenticated bytes / nonce / ciphertext must be rejected) and differentially against an independent extension-field walker + miscreant AES-SIV; code under test's crypto/rand draws replaced by a deterministic stream",
-        "level": "Generated search over keys, headers, cookie sizes, pool levels; per packet ~1000 (quick, every 7th bit) to ~8000 (thorough, all bits) mutants plus ~100 field edits. Exploration of the key/packet space, exhaustive over single-bit mutations of each generated packet in the thorough tier.",
+        "level": "Generated search over keys, headers, cookie sizes, pool levels, 0x00/0xff edge patterns of cookies and identifiers; per packet ~1000 (quick, every 7th bit) to ~8000 (thorough, all bits) mutants plus ~100 field edits. Exploration of the key/packet space, exhaustive over single-bit mutations of each generated packet in the thorough tier.",
         "note": "Layer 1 (pure functions). miscreant is trusted as reference AEAD. Cookie fields shorter than 24 bytes (below the 28-byte minimum extension field) and response cookie lengths that are not a multiple of 4 are outside the generator (documented decoder/constructor limits, not this project's 124-byte cookies). Found and repaired P4 (1063f3c), P5 (8367138), P6 (2d1881a) and truncated-authenticator zero-extension (68dd72b).",
     },
     "C03": {
-        "technique": "model-based stateful property testing (rapid) of the real IPClient and SCIONClient over loopback sockets against the harness's own protocol-conformant NTP server model (RFC 5905 + interleaved mode) with injected loss, duplication, stale and misdirected replies and a per-request changing server clock; oracle = half-RTT envelope around the model's true offset of exactly the exchange the result must describe, plus the literal |off-theta| <= rtd/2 bound from the client's evaluation log",
+        "technique": "model-based stateful property testing (rapid) of the real IPClient and SCIONClient over loopback sockets against the harness's own protocol-conformant NTP server model (RFC 5905 + interleaved mode) with injected loss, duplication, stale and misdirected replies and a per-request changing server clock whose readings can be made to land on chosen NTP fractions (whole seconds, one tick around them); oracle = half-RTT envelope around the model's true offset of exactly the exchange the result must describe, plus the literal |off-theta| <= rtd/2 bound from the client's evaluation log",
         "level": "Generated search over exchange/fault sequences (up to ~1500 client calls quick). Exploration; timing is measured, not controlled, and schedules are those of the kernel and Go runtime plus injected delays.",
         "note": "IP and SCION transports (SCION through a harness front that wraps the NTP server model). Harness instants and kernel timestamps come from the same CLOCK_REALTIME, which must not be stepped during a run. The server model is the harness's own reading of the protocol.",
     },
     "C09": {
-        "technique": "exhaustive enumeration of the first header byte x datagram lengths x trailing-data kinds (incl. valid, bit-flipped and foreign-key NTS requests) plus rapid-generated headers, sent to the real IP listener over loopback; sentinel-delimited reply counting against a shouldReply predicate written from the statement",
+        "technique": "exhaustive enumeration of the first header byte x datagram lengths x trailing-data kinds (incl. valid, bit-flipped and foreign-key NTS requests) plus rapid-generated headers, sent to the real IP listener and, wrapped into SCION/UDP packets over empty and 1-2-segment paths, to the real SCION listener over loopback; sentinel-delimited reply counting against a shouldReply predicate written from the statement",
         "level": "The first-byte x length x trailing-kind grid is enumerated completely in the thorough tier (a third of the non-valid first bytes per quick run); the other 47 header bytes are sampled. Exploration with an exhaustive sub-grid.",
-        "note": "IP listener only (the SCION listener shares ValidateRequest/handleRequest and is covered by C13 when built). Relies on per-socket-pair FIFO delivery on loopback; a lost sentinel is retried 6 times.",
+        "note": "Both listeners (SCION: lengths up to 1300 bytes, reply addressing checked as ISD-AS/host/port exchange from the listener socket to the previous hop; path reversal in depth is C13). Relies on per-socket-pair FIFO delivery on loopback; a lost sentinel is retried 6 times.",
     },
     "C20": {
         "technique": "stateful property testing (rapid) of the real ntske.Fetcher against a scripted TLS 1.3 key-exchange server: generated record streams, ALPN offers, truncations, segmentations and resets over multi-call histories; oracle = independent record parser evaluating the statement's conditions, independently derived RFC 8915 exporter keys from the server's side of the same session, pool/connection-count model",
@@ -87,7 +87,7 @@ TEXT = {
         "note": "IP transport (SCION source/destination and SPAO checks belong to C13). Datagrams from another port of the queried address are not judged. An acceptable datagram hidden behind junk may legitimately be skipped (only soundness of acceptance and completeness for a lone genuine reply are asserted).",
     },
     "C13": {
-        "technique": "property-based testing (rapid) over loopback against the real SCION listener and client with USE_MOCK_KEYS: generated SCION packets (payload kind, address families, ISD-AS, path shape and position, extensions, authenticator variants) with sentinel-delimited reply collection; oracle = independently recomputed SPAO MAC over the packet as received (spao library), independently computed path reversal, address/port exchange, payload echo, forwarding predicate; end-to-end exchanges through a byte-flipping relay",
+        "technique": "property-based testing (rapid) over loopback against the real SCION listener and client with USE_MOCK_KEYS: generated SCION packets (payload kind, address families, ISD-AS, traffic class, flow id, path shape and position, extensions, authenticator variants; client DSCP; listeners with DSCP 0 and 46) with sentinel-delimited reply collection; oracle = independently recomputed SPAO MAC over the packet as received (spao library), independently computed path reversal, address/port exchange, payload echo, forwarding predicate; end-to-end exchanges through a byte-flipping relay",
         "level": "Generated search: 2500 listener probes + 300 end-to-end exchanges quick, 10x per shard thorough. Exploration.",
         "note": "Two key set-ups: USE_MOCK_KEYS (all-zero host-host key; wrong key = mutated MAC/covered byte) and a harness-provided fake SCION daemon (gRPC) whose DRKeys depend on protocol, both ISD-ASes and both hosts (wrong key = the genuine key of other parameters; exercises the listener's key cache). scionproto slayers/spao/generic deriver are trusted. EPIC paths and the panic-inducing inputs (P9) are outside this generator (C08). Found and repaired: replies to one-hop-path requests carried the wrong path type (5d5f48f); MeasureClockOffsetSCION reported offset 0 without error when every path failed (3b20f61).",
     },
